@@ -2,7 +2,10 @@
 """Assemble MANIFEST.json from manifest.d/*.json (one fragment per claimed property) and not_applicable.json."""
 import glob, json, os
 here = os.path.dirname(os.path.abspath(__file__))
+# only properties listed in manifest.d/ENABLED (verified green on the unchanged tree) are claimed
+enabled = open(os.path.join(here, "manifest.d", "ENABLED")).read().split()
 checks = [json.load(open(p)) for p in sorted(glob.glob(os.path.join(here, "manifest.d", "C*.json")))]
+checks = [c for c in checks if c["property_id"] in enabled]
 claimed = {c["property_id"] for c in checks}
 na = json.load(open(os.path.join(here, "manifest.d", "not_applicable.json")))
 na = [x for x in na if x["property_id"] not in claimed]
